@@ -72,7 +72,7 @@ static void check_wf(size_t n) {
   ASSERT(a->nslots == 0 ? 1 : __CPROVER_r_ok(a->data, a->nslots * STEP), "the backing store covers the capacity");
   for (size_t i = 0; i < n; i++) {
     var e = Array_Item(a, i);
-    ASSERT(cv_is_elem(e) && HDR(e)->alloc == (var)AllocData, "[C19] every element carries (element type, Data) in its header");
+    ASSERT(cv_is_elem(e) && ALLOC_IS(e, AllocData), "[C19] every element carries (element type, Data) in its header");
     ASSERT(ET(e) > 0 && ET(e) < CV_NTOK && cv_live[ET(e)], "[C05] every contained element is live (never finalised while contained)");
     for (size_t k = 0; k < i; k++) ASSERT(ET(Array_Item(a, k)) != ET(e), "[C05] internal moves never duplicate an element");
   }
@@ -142,7 +142,7 @@ void h_get_set(void) {
   var e = Array_Get(a, $I(IDX));
   ASSERT(in_range, "[C12] get with an out-of-range index raises IndexOutOfBoundsError");
   ASSERT(e == Array_Item(a, p) && EV(e) == in_v[p], "[C04] get(i) is the i-th element (negative i counts from the end)");
-  ASSERT(cv_is_elem(e) && HDR(e)->alloc == (var)AllocData && type_of(e) == ELEM, "[C19] an object obtained from an Array carries the element type");
+  ASSERT(cv_is_elem(e) && ALLOC_IS(e, AllocData) && type_of(e) == ELEM, "[C19] an object obtained from an Array carries the element type");
   Array_Set(a, $I(IDX), x);
   check_wf(N);
   for (int j = 0; j < N; j++) ASSERT(VAL(j) == (j == p ? in_x : in_v[j]) && ET(Array_Item(a, j)) == old_tok[j], "[C04] set replaces exactly the addressed element's value");
